@@ -2,7 +2,7 @@
    Only ExtrOcamlBasic (bool/option/list/prod/unit to native OCaml data types);
    no Extract Constant / Extract Inductive of our own; N, Z, positive stay inductive. *)
 From Coq Require Import Extraction ExtrOcamlBasic.
-From RV Require Import Lib.Res Wire.Varint Wire.EntityCodec Tick.RepliconTick Tick.ConfirmHistory Tick.MutateTicks Pack.Packing Backend.Framing Backend.Conditioner Hash.Fnv Hash.Protocol Vis.Visibility Repl.World Repl.Server Repl.Client Repl.Sys Rules.Rules Rules.Scene Events.Remote Wire.HarnessPayload Wire.AckCodec Events.Local.
+From RV Require Import Lib.Res Wire.Varint Wire.EntityCodec Tick.RepliconTick Tick.ConfirmHistory Tick.MutateTicks Pack.Packing Backend.Framing Backend.Conditioner Hash.Fnv Hash.Protocol Vis.Visibility Repl.World Repl.Server Repl.Client Repl.Sys Rules.Rules Rules.Scene Events.Remote Wire.HarnessPayload Wire.AckCodec Events.Local Graph.Related.
 
 Extraction Language OCaml.
 Extraction "../ocaml/model.ml"
@@ -12,6 +12,6 @@ Extraction "../ocaml/model.ml"
   can_pack mutations_split
   frame read_message parse_all conditioner_batches protocol_hash_of check_protocol
   vis_new set_visibility remove_despawned drain_lost update state is_visible vstate_code
-  sys_init sys_step legal syse_init syse_step decode_ce0 decode_cem decode_ct ack_indices lapp_init lstep_run supported
+  sys_init sys_step legal syse_init syse_step decode_ce0 decode_cem decode_ct ack_indices lapp_init lstep_run supported graph_run
   rules_insert_all rule_new replicate_into_res select_components
   vdec_u16 vdec_u32 vdec_u64 venc_u16 venc_u32 venc_u64 fix16_dec fix16_enc.
